@@ -16,6 +16,7 @@ from harness.c05_embed import Embedder, has_tokens, is_blank, lead_trivia
 from harness import c05_frags as fr
 
 APIS = ('FST', 'fromsrc', 'parse', 'parse_ast')
+GUESSING = ('all', 'strict')
 
 
 def load_table(path):
@@ -59,7 +60,17 @@ def record(tab, emb, case, seed):
     """one parse event"""
     mode, text, cat = case['mode'], case['text'], case['cat']
     api = case.get('api') or api_for(seed, mode, text)
-    outcome, root, src, exc = call_pfst(api, mode, text)
+    if mode in GUESSING:
+        # the guessing modes ('all' = FST(src) / mode None, 'strict'): whatever node they return must be the correct
+        # parse of the text in the mode named by that node's own class; a refusal is judged against 'exec'
+        outcome, root, src, exc = call_pfst(api, None if mode == 'all' and api in ('FST', 'parse_ast') else mode, text)
+        via = mode
+        mode = type(root).__name__ if outcome == 'tree' else 'exec'
+        if mode not in emb.table:
+            mode = 'exec'
+        cat = via + ':' + cat
+    else:
+        outcome, root, src, exc = call_pfst(api, mode, text)
     ev = {'call': 'parse', 'api': api, 'mode': mode, 'cat': cat, 'text': tab.text(text), 'hasTok': has_tokens(text), 'blank': is_blank(text), 'leadTrivia': lead_trivia(text),
           'outcome': outcome, 'exc': exc, 'got': {'hasSrc': False, 'src': 0, 'root': 0}, 'alts': []}
     if outcome == 'tree':
@@ -168,7 +179,7 @@ def plan(seed, table, matrix, quick, pool):
     named = sorted(m for m, r in table.items() if r['shape'] in ('node', 'op', 'list') and not m[:1].isupper()
                    or m in ('ExceptHandler', 'Tuple', 'Tuple_elt', 'Import_name', 'ImportFrom_name'))
     allmodes = sorted(table)
-    per_pair, nvar = (4, 4) if quick else (16, 7)
+    per_pair, nvar = (4, 4) if quick else (30, 8)
 
     # (G) mode x kind matrix of the spec, concretised with corpus fragments in layouts
     for mode, kind in sorted(matrix):
@@ -209,13 +220,23 @@ def plan(seed, table, matrix, quick, pool):
 
     # cross-mode: valid fragments of one kind in modes that (mostly) do not admit them
     kinds = sorted(pool)
-    for _ in range(1500 if quick else 14000):
+    for _ in range(1500 if quick else 30000):
         k = rng.choice(kinds)
         t = rng.choice(pool[k])
         if len(t) > 300:
             continue
         m = rng.choice(named if rng.random() < 0.8 else allmodes)
         cases.append({'mode': m, 'text': t, 'cat': 'cross:' + k, 'kind': k})
+
+    # the guessing modes on fragments of every kind (FST(src) with no mode is 'all')
+    for _ in range(500 if quick else 12000):
+        k = rng.choice(kinds)
+        t = rng.choice(pool[k])
+        if len(t) > 400:
+            continue
+        vs = fr.variants(t, k in _STMT or k in STMTLIKE)
+        vn, vt = rng.choice(vs)
+        cases.append({'mode': 'all' if rng.random() < 0.75 else 'strict', 'text': vt, 'cat': k + ':' + vn, 'kind': k})
 
     # wrapper escapes generated from each mode's own embedding delimiters
     for m in named:
@@ -224,7 +245,7 @@ def plan(seed, table, matrix, quick, pool):
         own = pool.get(m) or pool.get(row['kinds'][0] if row['kinds'] else '', [])
         short = [t for t in own if len(t) <= 80 and '\n' not in t]
         na = [t for t in short if not t.isascii()]
-        for rep in range(3 if quick else 9):
+        for rep in range(3 if quick else 12):
             # rep 0: the placeholders; then alternately non-ASCII and any corpus fragment of the mode's own kind
             if rep % 3 == 0 and rep < 3 or not short:
                 v1, v2 = (phs[0] if phs else 'a'), (phs[-1] if phs else 'b')
@@ -242,7 +263,7 @@ def plan(seed, table, matrix, quick, pool):
             cases.append({'mode': m, 'text': s, 'cat': 'invalid-src', 'kind': ''})
 
     # token deletion / insertion mutants of valid fragments, in the modes that admitted the original
-    for _ in range(400 if quick else 6000):
+    for _ in range(400 if quick else 12000):
         k = rng.choice(kinds)
         t = rng.choice(pool[k])
         if len(t) > 200:
